@@ -66,9 +66,28 @@ def dimensions_part(dimensions):
         for dim in dims.keys():
             (custom_dims if dim.startswith('dim_') else predefined_dims).append(dim)
         dim_keys = sorted(predefined_dims) + sorted(custom_dims)
-        return os.path.join(*(map(lambda k: k + "-" + str(dims.get(k, 'default')), dim_keys)))
+        return os.path.join(*(map(lambda k: dimension_dirname(k, dims.get(k, 'default')), dim_keys)))
     else:
         return ""
+
+
+def dimension_dirname(key, value):
+    """
+    Return the directory name for one dimension. Keys and values can come
+    straight from the request (WMS TIME, ELEVATION, DIM_*): path separators
+    are replaced, so that the name is always a single path segment and the
+    tiles stay below the cache directory.
+
+    >>> dimension_dirname('time', '2020-08-25T00:00:00Z')
+    'time-2020-08-25T00:00:00Z'
+    >>> dimension_dirname('time', '../../..'.replace('/', os.sep))
+    'time-.._.._..'
+    """
+    dirname = key + "-" + str(value)
+    for sep in (os.sep, os.altsep):
+        if sep:
+            dirname = dirname.replace(sep, '_')
+    return dirname
 
 
 def level_part(level):
